@@ -19,18 +19,23 @@ CLAIMS = {
         category='other',
         text='IntegerSequence: all 10 query methods are proved to agree with the set pts(self) denoted by the '
              'fields (membership, least/greatest element clauses with quantified postconditions) under the '
-             'representation invariant wf_iseq, and __init__ is proved, per documented recurrence row, to '
+             'representation invariant wf_iseq, and __init__ is proved, per documented recurrence row - ten of '
+             'the eleven rows: NOT Rn/START/END, which stays undecided (bounded companion only) - to '
              'establish wf_iseq and pts(self) == documented arithmetic progression clipped to [initial, final] '
-             'minus exclusions, for all integers (no bound). Deviations of the real code from the strict '
+             'minus exclusions, for all integers (no bound). Deviations of the query methods from the strict '
              'statement are isolated by `domain` clauses, proved refuted by z3 on the strict variant, replayed '
-             'on the real code and listed in known_findings.json; five defects were repaired by fix: commits. '
-             'Level "other" because discharged < obligations while known findings remain.',
+             'on the real code and listed in known_findings.json; seven defects were repaired by fix: commits. '
+             'A bounded companion enumerates every form with exclusion points and exclusion sequences in a small '
+             'box. Level "other" because discharged < obligations while known findings remain.',
         note=_PROOF_NOTE + 'Assumed: ExclusionBase.__contains__ / IntegerExclusions.__init__ (abstract exclusion '
              'set xin), parse_exclusion (string splitting), the regex table summarised by ghost functions '
              'row_match/grp with the group-shape axioms of contracts/c16_init.py (checked natively by the '
              'replay catalog, not proved); termination of the exclusion recursions (partial correctness). '
-             'Rows Rn/START/END, Rn/START/INTV and Rn/INTV/END of __init__ and the strict variants of '
-             '__init__ are verified only by the thorough command (minutes each).'),
+             'Rows Rn/START/INTV and Rn/INTV/END of __init__ are verified only by the thorough command (minutes '
+             'each). Row Rn/START/END is not under contract (z3 returns a model over the uninterpreted text / '
+             'number functions that no concrete input reproduces: undecided). The strict variants of __init__ are '
+             'not run (DESIGN 11.5, correction 14); what they showed - a one-off point outside [initial, final] is '
+             'kept; START == END with n > 1 gives a zero step - is recorded there.'),
     'C18': dict(
         category='other',
         text='IntegerPoint / IntegerInterval and the shared PointBase / IntervalBase plumbing: every method is '
